@@ -23,6 +23,7 @@ Tie to the code (every run, against VERIF_REPO's current working tree):
 import os
 import re
 
+import c13_duration
 import core
 import corr_retry
 import schema_gen
@@ -128,7 +129,7 @@ UNANCHORED_DEFECT = {"duration": ["PT1Hjunk", "PT1H trailing words", "PT1H2", "P
 # an independent statement of each lexical space (whole value): what is NOT matched must be refused
 LEXICAL = {
     "dateTime": r"\d{4}-\d\d?-\d\d?[Tt]\d\d?:\d\d?:\d\d?(\.\d*)?[Zz]?\n?",
-    "duration": r"-?P(?=[0-9T])(\d+Y)?(\d+M)?(\d+D)?(T(?=\d)(\d+H)?(\d+M)?(\d+([.,]\d*)?S)?)?[ \t\n\r]*",
+    "duration": c13_duration.XS_DURATION.pattern,
     "boolean": r"(?i:true|false|0|1)",
     "language": r"[a-zA-Z]{1,8}(-[a-zA-Z0-9]{1,8})*",
     "NMTOKEN": r"[^ \t\n\r]+",
@@ -145,7 +146,8 @@ for _k, _vs in list(UNANCHORED.items()) + list(UNANCHORED_DEFECT.items()):
 for _k, _vs in UNANCHORED.items():
     SAMPLES[_k] = (SAMPLES[_k][0], SAMPLES[_k][1] + [_v for _v in _vs if _v not in SAMPLES[_k][1]])
 # validators that are NOT defined in Gallina: the model looks their verdict up in the table
-TABLE_KEYS = ["dateTime", "duration", "base64Binary", "anyURI", "pv:ipaddress"]
+# (duration left the table: Model/Duration.v follows time_util.parse_duration; see c13_duration.py)
+TABLE_KEYS = ["dateTime", "base64Binary", "anyURI", "pv:ipaddress"]
 # probe values for validate.valid(typ, .): they tell all validators apart
 PROBES = ["3", "0", "-1", "256", "65536", "a b", "true", "x", "\x01x", "2020-01-01T00:00:00Z", "PT1H", "aGk=", " ", "", "en", "a\tb", "-9223372036854775809"]
 
@@ -1128,6 +1130,9 @@ def run(ctx):
     B = Builder(T, ctx.rng)
     check_prims(ctx)
     lap("prim")
+    n = c13_duration.check(ctx, corr_retry, IMPORTS, SAMPLES["duration"][0] + SAMPLES["duration"][1] + UNANCHORED_DEFECT["duration"])
+    ctx.extra["duration_family"] = n
+    lap("duration")
     check_valid(ctx, T, B)
     lap("valid")
     check_vvt(ctx, T, B)
@@ -1306,6 +1311,9 @@ def cex_search(ctx):
                             "%s of %s.%s (%s): the implementation gives %r, the verified model %s" % (
                                 show["kind"], show["violated_class"], show["member"], show["nest"], d.impl, _pretty(d.model)),
                             {"unit": "variant", "class": show["violated_class"], "kind": show["kind"], "member": show["member"], "nest": show["nest"], "idx": show["idx"]})
+        elif d.unit in ("duration", "duration_value"):
+            ctx.oracle_fail("disagreement:%s:%r" % (d.unit, show["value"]), "time_util.parse_duration(%r): implementation %r, model (Model/Duration.v) %s" % (
+                show["value"], d.impl, _pretty(d.model)), {"unit": "duration", "value": show["value"]})
         elif d.unit == "prim":
             ctx.oracle_fail("disagreement:prim:%s:%r" % (show["key"], show["value"]), "validator %s on %r: implementation %r, model %s" % (
                 show["key"], show["value"], d.impl, _pretty(d.model)), {"unit": "prim", "key": show["key"], "value": show["value"]})
@@ -1344,6 +1352,10 @@ def replay(ctx, payload):
     elif u == "str_to_time":
         from saml2_tophat import time_util
         print("time_util.str_to_time(%r) ->" % inp["value"], call(time_util.str_to_time, inp["value"]), "; valid_date_time ->", real_prim("dateTime", inp["value"]))
+    elif u == "duration":
+        from saml2_tophat import time_util
+        print("time_util.parse_duration(%r) ->" % inp["value"], call(time_util.parse_duration, inp["value"]), "; valid_duration ->", real_prim("duration", inp["value"]),
+              "; xs:duration:", bool(c13_duration.XS_DURATION.fullmatch(inp["value"])))
     elif u == "prim":
         print("validator %s on %r ->" % (inp["key"], inp["value"]), real_prim(inp["key"], inp["value"]))
     elif u == "valid":
